@@ -123,6 +123,24 @@ def run(prop, tier, seed, ctx):
                 src.append(r)
         ctx.count(len(grid), (json.dumps([r["pattern"], r["program"]]) for r in grid if r["n"] > 0))
         validate(ws, src, prop, ctx, "pattern x program grid + derived patterns")
+        # sub-matches: a second pattern matched inside a subtree bound by the first one, inheriting its bindings
+        spairs = [(p, s) for p in B.OUTER_FOR_SUB for s in B.PROGRAMS + B.SUB_PROGRAMS]
+        sgrid = shard_map("bind.cait", "record_chunk", spairs, extra="sub")
+        ws2, src2, nerr = [], [], 0
+        for r in sgrid:
+            for w in r.get("sub", []):
+                if "error" in w:
+                    nerr += 1
+                    continue
+                if not w["m"]:
+                    continue
+                ws2.append({k: w[k] for k in ("P", "S", "m", "sym", "exps")})
+                src2.append({"pattern": "%s  >>  %s (inside %s)" % (r["pattern"], w["sub"], w["inside"]), "program": r["program"]})
+        if len(ws2) < 30:
+            raise MachineryError("only %d sub-match witnesses were produced (%d errors)" % (len(ws2), nerr))
+        ctx.cov["replayed_cases"] += len(ws2)
+        ctx.count(len(ws2), (json.dumps([r["pattern"], r["program"]]) for r in src2))
+        validate(ws2, src2, prop, ctx, "sub-patterns matched inside bound subtrees with inherited bindings")
         # binding self-test: a corrupted witness must be rejected
         if ws:
             bad = json.loads(json.dumps(ws[:40]))
